@@ -42,6 +42,19 @@ type c20Obl struct{ dir, class, ref string }
 
 const c20NestLimit = 257 // deepest node the parser itself can produce (readNodes: nesting > 255)
 
+// c20NodeLimit: the number of nodes import expansion may add to a tree (maxExpandedNodes of fix 3, restated
+// here: the monitor does not read the constant of the code under test). What is not added by imports
+// was written in the source: one node per token at most.
+const c20NodeLimit = 100000
+
+func (cs *c20Case) sourceSize() int {
+	n := len(cs.input)
+	for _, f := range cs.files {
+		n += len(f.content)
+	}
+	return n
+}
+
 func c20Tables(cs *c20Case) string {
 	seen := map[rune]bool{}
 	var letters, digits []rune
@@ -179,6 +192,24 @@ func (rn *c20Runner) prepare(cs *c20Case) {
 }
 
 func (rn *c20Runner) read(input []byte) c20Result {
+	return rn.watch(func() ([]Node, error) { return Read(bytes.NewReader(input), rn.location) })
+}
+
+// readTreeCounted runs readTree the way Read does, with a counter of its own for the import budget
+// (Read allocates it and throws it away), and without the environment expansion.
+func (rn *c20Runner) readTreeCounted(input []byte) (c20Result, int) {
+	cnt := 0
+	res := rn.watch(func() ([]Node, error) {
+		nodes, _, _, err := readTree(bytes.NewReader(input), rn.location, 0, &cnt)
+		return nodes, err
+	})
+	if res.timeout {
+		return res, 0 // the goroutine is still running
+	}
+	return res, cnt
+}
+
+func (rn *c20Runner) watch(call func() ([]Node, error)) c20Result {
 	ch := make(chan c20Result, 1)
 	go func() {
 		var res c20Result
@@ -188,7 +219,7 @@ func (rn *c20Runner) read(input []byte) c20Result {
 			}
 			ch <- res
 		}()
-		res.nodes, res.err = Read(bytes.NewReader(input), rn.location)
+		res.nodes, res.err = call()
 	}()
 	start := time.Now()
 	tick := time.NewTicker(100 * time.Millisecond)
@@ -626,6 +657,9 @@ func (rn *c20Runner) runCase(out *vh.Out, cs *c20Case, withPrint bool, tag strin
 	if s := c20WellFormed(res.nodes); s != "" {
 		out.Violation("C20/ill-formed-output", op, s)
 	}
+	if n, bound := c20Count(res.nodes), c20NodeLimit+cs.sourceSize(); n > bound {
+		out.Violation("C20/expansion-unbounded", op, fmt.Sprintf("Read returned %d nodes from %d bytes of configuration: more than the import expansion limit %d + the size of the source", n, cs.sourceSize(), c20NodeLimit))
+	}
 	if depth > c20NestLimit {
 		out.Violation("C20/nesting-unbounded", op, fmt.Sprintf("tree depth %d exceeds the parser's nesting limit %d", depth, c20NestLimit))
 		out.Violation("C20/ill-formed-output", op, fmt.Sprintf("blocks nested %d deep, deeper than the limit %d the parser itself enforces", depth, c20NestLimit))
@@ -947,6 +981,240 @@ func c20ExpoFixed() []*c20Case {
 		mk("(a) {\n" + p99.String() + "}\n" + strings.Repeat("import a\n", 1000)),
 		mk("(a) {\n" + p99.String() + "}\n" + strings.Repeat("import a\n", 1001)),
 		mk("import e1\n", efiles...),
+	}
+}
+
+// ---- the import budget itself (round 8)
+//
+// runCharge calls readTree with a counter of its own and compares counter and tree size with the model
+// (`C20 charge`: ok <charged> <nodes>). Independently of the model: the budget is respected, and it pays
+// for everything that was added — the tree has at most one node per token of the main file plus what was
+// charged. A budget that does not count what an import splices in (only the top level of it, only some
+// kinds of node, …) fails the second clause as soon as a tree is returned.
+func c20Tokens(content []byte) int {
+	d := lexer.NewDispenser("", bytes.NewReader(content))
+	n := 0
+	for d.Next() {
+		n++
+	}
+	return n
+}
+
+func (rn *c20Runner) runCharge(out *vh.Out, cs *c20Case, tag string) {
+	op := "C20 charge " + cs.opArgs()
+	rn.prepare(cs)
+	res, cnt := rn.readTreeCounted(cs.input)
+	out.Stat("gen=" + tag + "[charge]")
+	switch {
+	case res.timeout:
+		out.Violation("C20/timeout", op, "configuration parsing does not terminate within the resource bounds: "+res.exhausted)
+		out.Corr(op, "timeout")
+		rn.giveUp(out)
+		return
+	case res.panicked != nil:
+		out.Violation("C20/panic", op, fmt.Sprint(res.panicked))
+		out.Corr(op, "panic")
+		return
+	case res.err != nil:
+		cls, inModel := c20ErrClass(res.err)
+		if !inModel {
+			return
+		}
+		out.Corr(op, cls)
+		out.Stat("charge.outcome=" + strings.Join(strings.Fields(cls)[:2], " "))
+		return
+	}
+	n := c20Count(res.nodes)
+	out.Corr(op, fmt.Sprintf("ok %d %d", cnt, n))
+	out.Stat("charge.outcome=ok")
+	switch {
+	case cnt == 0:
+		out.Stat("charge.charged=0")
+	case cnt <= 100:
+		out.Stat("charge.charged=1-100")
+	case cnt <= 10000:
+		out.Stat("charge.charged=101-1e4")
+	default:
+		out.Stat("charge.charged=1e4-1e5")
+	}
+	if cnt > c20NodeLimit {
+		out.Violation("C20/expansion-unbounded", op, fmt.Sprintf("import budget charged %d, above the limit %d, and a tree was returned", cnt, c20NodeLimit))
+	}
+	if toks := c20Tokens(cs.input); n > toks+cnt {
+		out.Violation("C20/expansion-unbounded", op, fmt.Sprintf("the tree has %d nodes, the main file has %d tokens and the import budget was charged %d: imports added nodes that were never charged", n, toks, cnt))
+	}
+}
+
+// Doubling / tripling chains whose bodies are NOT flat: the imports and the payload of a snippet (or file)
+// sit inside 1..3 levels of blocks, with payload (leaves, empty blocks, or blocks holding a leaf) and imports at every level, also mixed with
+// flat ones. What one import splices in is then a few top-level nodes with many descendants.
+type c20NestedParams struct {
+	fan     int   // imports of the previous link per body
+	wrap    int   // levels of blocks in a body
+	payload []int // payload directives at level 0 (flat) … wrap
+	pkind   []int // what they are, per level (nil = leaves): 0 leaves, 1 empty blocks, 2 blocks holding one leaf
+	imports []int // imports at level 0 (flat) … wrap; sum = fan
+	links   int
+	files   bool // links are files e1 → e2 → … instead of snippets
+	reverse bool
+	topWrap int
+}
+
+func (p c20NestedParams) kind(lv int) int {
+	if lv < len(p.pkind) {
+		return p.pkind[lv]
+	}
+	return 0
+}
+
+func (p c20NestedParams) perBody() int {
+	n := p.wrap
+	for lv, x := range p.payload {
+		if p.kind(lv) == 2 {
+			x *= 2
+		}
+		n += x
+	}
+	return n + 1
+}
+
+func c20NestedBody(p c20NestedParams, link int, importName string) string {
+	var b strings.Builder
+	for lv := 0; lv <= p.wrap; lv++ {
+		ind := strings.Repeat(" ", lv+1)
+		if lv > 0 {
+			b.WriteString(strings.Repeat(" ", lv) + "w" + strconv.Itoa(lv) + " a" + strconv.Itoa(link) + " {\n")
+		}
+		for i := 0; i < p.payload[lv]; i++ {
+			b.WriteString(ind + "p" + strconv.Itoa(lv) + " " + strconv.Itoa(i) + []string{"\n", " {\n" + ind + "}\n", " {\n" + ind + " l\n" + ind + "}\n"}[p.kind(lv)])
+		}
+		if importName != "" {
+			b.WriteString(strings.Repeat(ind+"import "+importName+"\n", p.imports[lv]))
+		}
+	}
+	for lv := p.wrap; lv > 0; lv-- {
+		b.WriteString(strings.Repeat(" ", lv) + "}\n")
+	}
+	return b.String()
+}
+
+func c20NestedCase(p c20NestedParams) *c20Case {
+	cs := &c20Case{files: c20DirEntries()}
+	top := func(body string) string {
+		return strings.Repeat("t {\n", p.topWrap) + body + strings.Repeat("}\n", p.topWrap)
+	}
+	if p.files {
+		// e1 imports e2 … e<links> is the leaf
+		for i := 1; i <= p.links; i++ {
+			next := ""
+			if i < p.links {
+				next = "e" + strconv.Itoa(i+1)
+			}
+			cs.files = append(cs.files, c20File{"e" + strconv.Itoa(i), i, []byte(c20NestedBody(p, i, next))})
+		}
+		cs.input = []byte(top("import e1\n"))
+		return cs
+	}
+	var decls []string
+	for i := 0; i <= p.links; i++ {
+		prev := ""
+		if i > 0 {
+			prev = "s" + strconv.Itoa(i-1)
+		}
+		decls = append(decls, "(s"+strconv.Itoa(i)+") {\n"+c20NestedBody(p, i, prev)+"}\n")
+	}
+	if p.reverse {
+		for i, j := 0, len(decls)-1; i < j; i, j = i+1, j-1 {
+			decls[i], decls[j] = decls[j], decls[i]
+		}
+	}
+	cs.input = []byte(strings.Join(decls, "") + top("import s"+strconv.Itoa(p.links)+"\n"))
+	return cs
+}
+
+func c20GenNestedExpo(r *vh.Rng) (*c20Case, string) {
+	p := c20NestedParams{fan: 2, wrap: 1 + r.Intn(3), files: r.Chance(20), reverse: r.Bool(), topWrap: r.Intn(3)}
+	if r.Chance(25) {
+		p.fan = 3
+	}
+	p.payload = make([]int, p.wrap+1)
+	p.imports = make([]int, p.wrap+1)
+	p.pkind = make([]int, p.wrap+1)
+	for lv := range p.payload {
+		if r.Chance(35) {
+			p.pkind[lv] = 1 + r.Intn(2) // the payload is made of blocks
+		}
+		switch r.Intn(3) {
+		case 0:
+			p.payload[lv] = r.Intn(3)
+		case 1:
+			p.payload[lv] = 3 + r.Intn(20)
+		default:
+			p.payload[lv] = 20 + r.Intn(45)
+		}
+	}
+	style := "nested"
+	switch x := r.Intn(100); {
+	case x < 45: // all imports in the innermost block
+		p.imports[p.wrap] = p.fan
+	case x < 70: // spread over the nested levels
+		for i := 0; i < p.fan; i++ {
+			p.imports[1+r.Intn(p.wrap)]++
+		}
+		style = "spread"
+	default: // flat and nested mixed
+		p.imports[0] = 1
+		for i := 1; i < p.fan; i++ {
+			p.imports[1+r.Intn(p.wrap)]++
+		}
+		style = "mixed"
+	}
+	// size of the full expansion ≈ perBody · fan^links: a few thousand nodes (returned whole), around the
+	// limit, or several times the limit (must be refused; nothing is pre-computed or skipped: the reader has
+	// to come back with an error, or with a tree within the bound, under the watch of c20Runner)
+	var target int
+	switch x := r.Intn(100); {
+	case x < 35:
+		target = 500 + r.Intn(40000)
+	case x < 60:
+		target = 60000 + r.Intn(90000)
+	default:
+		target = 150000 + r.Intn(450000)
+	}
+	size := p.perBody()
+	for size*p.fan <= target && p.links < 40 {
+		size *= p.fan
+		p.links++
+	}
+	if p.links == 0 {
+		p.links = 1
+	}
+	if p.files && p.links > 14 {
+		p.links = 14 // every import of a file reads and parses it again
+	}
+	kind := "snippets"
+	if p.files {
+		kind = "files"
+		p.links++ // e1 … e<links>, the last one is the leaf
+	}
+	return c20NestedCase(p), fmt.Sprintf("expo-nested/%s/%s/fan%d", kind, style, p.fan)
+}
+
+// fixed part: bodies wrapped in one block whose full expansion is just above the limit (refused by a budget
+// that counts what it splices in; a tree of that size is the violation), below it (the charge is compared
+// with the model), flat + nested mixed, three levels, files.
+func c20NestedFixed() []*c20Case {
+	return []*c20Case{
+		c20NestedCase(c20NestedParams{fan: 2, wrap: 1, payload: []int{0, 60}, imports: []int{0, 2}, links: 11}),
+		c20NestedCase(c20NestedParams{fan: 2, wrap: 1, payload: []int{0, 60}, imports: []int{0, 2}, links: 6}),
+		c20NestedCase(c20NestedParams{fan: 3, wrap: 2, payload: []int{1, 4, 30}, imports: []int{0, 1, 2}, links: 8, reverse: true}),
+		c20NestedCase(c20NestedParams{fan: 2, wrap: 1, payload: []int{2, 50}, imports: []int{1, 1}, links: 12, topWrap: 1}),
+		c20NestedCase(c20NestedParams{fan: 2, wrap: 3, payload: []int{0, 0, 0, 40}, imports: []int{0, 0, 0, 2}, links: 12}),
+		c20NestedCase(c20NestedParams{fan: 2, wrap: 3, payload: []int{3, 3, 3, 3}, imports: []int{0, 1, 0, 1}, links: 7}),
+		c20NestedCase(c20NestedParams{fan: 2, wrap: 1, payload: []int{0, 55}, imports: []int{0, 2}, links: 12, files: true}),
+		c20NestedCase(c20NestedParams{fan: 2, wrap: 1, payload: []int{0, 60}, pkind: []int{0, 1}, imports: []int{0, 2}, links: 11}),
+		c20NestedCase(c20NestedParams{fan: 2, wrap: 1, payload: []int{30, 0}, pkind: []int{2, 0}, imports: []int{1, 1}, links: 11}),
+		c20NestedCase(c20NestedParams{fan: 2, wrap: 2, payload: []int{1, 1, 1}, imports: []int{0, 0, 2}, links: 5, files: true}),
 	}
 }
 
@@ -1388,11 +1656,14 @@ func c20CheckObls(out *vh.Out, op string, cs *c20Case, ns []Node) {
 	walk(ns)
 }
 
-// ---- declarations closed by `}` on their own line (readNodes: `continue` past the shouldStop break)
+// ---- declarations closed by `}` on their own line
 //
-// `x { $(m) = v }` and `x { (s) }` decrement ctx.nesting and carry on INSIDE the block: every following
-// line is one block deeper while ctx.nesting stays at 1. Only the walk after import expansion
-// (checkNesting) bounds the depth of what Read returns.
+// Before fix 4 `x { $(m) = v }` and `x { (s) }` decremented ctx.nesting and carried on INSIDE the block
+// (readNodes `continue`d past the shouldStop break): every following line was one block — and one level of
+// recursion — deeper while ctx.nesting stayed at 1, and only the walk after import expansion (checkNesting)
+// bounded the depth of what Read returned. Since fix 4 such a declaration is refused ("only allowed at
+// top-level"); the generator stays: whatever the reader makes of these lines, the tree it returns is
+// bounded (and the deep variant of the same text is parsed in a child process, zz_verif_c20_deep_test.go).
 func c20GenSameLine(r *vh.Rng) (*c20Case, string) {
 	cs := &c20Case{files: c20DirEntries()}
 	var n int
@@ -1625,6 +1896,9 @@ func TestVerifC20Parse(t *testing.T) {
 			if cs != nil && (kind == "parse" || kind == "print") {
 				rn.runCase(out, cs, kind == "print", "replay")
 			}
+			if cs != nil && kind == "charge" {
+				rn.runCharge(out, cs, "replay")
+			}
 		}
 		return
 	}
@@ -1666,6 +1940,14 @@ func TestVerifC20Parse(t *testing.T) {
 
 	for _, cs := range c20ExpoFixed() {
 		rn.runCase(out, cs, false, "expo/fixed")
+		rn.runCharge(out, cs, "expo/fixed")
+	}
+	for _, cs := range c20NestedFixed() {
+		rn.runCase(out, cs, false, "expo-nested/fixed")
+		rn.runCharge(out, cs, "expo-nested/fixed")
+	}
+	for _, s := range c20Fixed {
+		rn.runCharge(out, &c20Case{input: []byte(s), files: c20DirEntries()}, "fixed")
 	}
 
 	for i := 0; i < n; i++ {
@@ -1673,6 +1955,13 @@ func TestVerifC20Parse(t *testing.T) {
 		if i%600 == 11 {
 			cs, tag := c20GenExpo(r)
 			rn.runCase(out, cs, false, tag)
+			rn.runCharge(out, cs, tag)
+			continue
+		}
+		if i%600 == 311 {
+			cs, tag := c20GenNestedExpo(r)
+			rn.runCase(out, cs, false, tag)
+			rn.runCharge(out, cs, tag)
 			continue
 		}
 		if i%120 == 13 {
@@ -1705,5 +1994,8 @@ func TestVerifC20Parse(t *testing.T) {
 		}
 		cs, tag := c20GenCase(r)
 		rn.runCase(out, cs, i%3 == 0, tag)
+		if i%40 == 1 {
+			rn.runCharge(out, cs, tag)
+		}
 	}
 }
